@@ -187,6 +187,34 @@ pub fn admits(o: &Obs, e: &Elem, parent_field: Option<&Field>, path: &str) -> Fi
     None
 }
 
+/// "The struct for that position" is reached through the type name written in the parent's field. When every
+/// element name of the history is a plain lowercase ASCII word, PascalCase names and their ancestor-qualified
+/// concatenations are uniquely decodable, so two positions can only share a struct name if the renderer
+/// confuses them; then the definition a field refers to is not the one that describes the position.
+/// (Outside that name regime the unchanged tree already emits same-named structs - C04's subject - so the
+/// oracle is not applied there.)
+pub fn cmp_named_resolution(whole: &[Block]) -> Finding {
+    for (i, a) in whole.iter().enumerate() {
+        for b in whole.iter().skip(i + 1) {
+            if a.name == b.name && a.lines != b.lines {
+                return bad(
+                    "struct_name_refers_to_two_definitions",
+                    "/",
+                    format!("two different struct definitions are both called {:?}; a field of that type cannot describe both positions:\n{}\n--- and ---\n{}", a.name, a.lines.join("\n"), b.lines.join("\n")),
+                );
+            }
+        }
+    }
+    for b in whole {
+        for f in b.fields.iter().filter(|f| f.kind == Kind::Child && f.ty != "String") {
+            if !whole.iter().any(|x| x.name == f.ty) {
+                return bad("field_type_undefined", "/", format!("field {:?} of struct {:?} has type {:?}, which is not defined in the output", f.ident, b.name, f.ty));
+            }
+        }
+    }
+    None
+}
+
 // ---------------------------------------------------------------------------------------------
 // C09: order
 // ---------------------------------------------------------------------------------------------
